@@ -493,7 +493,35 @@ def check_matrix(ctx):
                                                    "type": ttype}, {})
 
 
+def long_record(ctx):
+    """a record longer than 2^15 samples, default time stamps: positions must
+    not wrap (compared with the same call given explicit time stamps)"""
+    E = ES()
+    rng = ctx.rng
+    T = 40000
+    x, y = np.zeros(T, int), np.zeros(T, int)
+    ex = sorted(rng.sample(range(32800, T - 10, 7), 5)) + [100]
+    x[ex] = 1
+    y[[min(T - 1, v + rng.choice([3, 10, 20])) for v in ex]] = 1
+    t = np.arange(T, dtype=float)
+    ctx.evaluations += 1
+    ctx.stat("long record")
+    with warnings.catch_warnings():
+        warnings.simplefilter("ignore")
+        a = E.event_synchronization(x, y, taumax=np.inf)
+        b = E.event_synchronization(x, y, ts1=t, ts2=t, taumax=np.inf)
+    if not (close(float(a[0]), float(b[0])) and close(float(a[1]),
+                                                    float(b[1]))):
+        ctx.violation("EventSeries.event_synchronization",
+                      "default time stamps on a record of 40000 samples give "
+                      "other strengths than explicit time stamps",
+                      {"events_x": sorted(ex), "T": T,
+                       "got": [float(a[0]), float(a[1])],
+                       "want": [float(b[0]), float(b[1])]}, {"long": True})
+
+
 def search(ctx):
+    long_record(ctx)
     ctx.stats["rule"] = (
         "pairs of binary event series, T = 4..40, 0-8 events each (all pairs "
         "of series with >= 3 events for T = 6,7 sampled in thorough), integer "
